@@ -21,6 +21,7 @@ import Gengo.Model.Partial
 import Gengo.Model.Assemble
 import Gengo.Model.Loader
 import Gengo.Model.Register
+import Gengo.Drv.Resolve2
 open Gengo
 
 def hexVal (c : Char) : Nat :=
@@ -627,6 +628,7 @@ def handle (fx : String → Bool) (line : String) : String :=
     (match Resolver.resultsOf funcs (fx == "1") 200 f.toNat! with
      | none => "diverge"
      | some rs => "(" ++ String.intercalate ", " (rs.map fun r => String.intercalate " | " (r.map showRes)) ++ ")")
+  | "resolve2" :: toks => R2Drv.run toks
   | "assemble" :: pkg :: gen :: imps :: frags =>
     let tab : List (List Char × List Char) := if imps == "-" then [] else
       (imps.splitOn ",").map fun kv => match kv.splitOn "=" with
